@@ -857,7 +857,7 @@ META = {
     "public conflict-checking setters (stdout exempt only under e>p); every normal return of cmds_to_specs passes the residual-sentinel "
     "check; sibling stage-kind handlers are cross-checked for the merge flags. Actual byte delivery is not decided.",
     "note": "Decides the listed structural clauses, not the behaviour. Oracle table (origin/destination classes, "
-    "modes) is written from the property statement and docs. Known finding: ProcProxy._pick_buf ignores the merge flags.",
+    "modes) is written from the property statement and docs..",
     "more": 'Also decided: every stage that is captured, piped or redirected receives the capture-always marker whatever per-command overlay it already has. Redirect targets are opened with the interpreter\'s own blocking opener; the two-sided redirect spellings are tokens only as whole words (look-ahead in the tokenizer\'s pattern). The stream objects a threaded alias stage writes to are decided by a table over the resolved handles (own handle / shared handle / none, merge requested or not): a requested e>o shares stdout\'s object even without a stdout handle, no request and no handle is the session\'s own stderr; `.stdout` and `.stderr` are normalised alike (no request flag left in either). run_alias_by_params switches to positional binding from the names of all parameters (no exemption by default value), so an alias receives the stage\'s streams under every naming of its parameters.',
 }
 
